@@ -193,10 +193,11 @@ def r_who_release(ctx: Ctx, rule="R01.3"):
         if in_ending:
             rep.ob(rule, "the pool slot is released only by _task_ending (or by the acquirer for a slot it still owns)", True, node=e.node)
         else:
-            ok, why = slot_balance(ctx, e.node.func)
+            owner = e.node.root if e.node.root is not None else e.node.func  # the function this instance of the step runs in
+            ok, why = slot_balance(ctx, owner)
             rep.ob(rule, "the pool slot is released only by _task_ending (or by the acquirer for a slot it still owns)", ok and ctx.in_pool(e.node.func), node=e.node,
-                   detail=f"release in {e.node.func.short}: {why}")
-    for f in {e.node.func.qual: e.node.func for e in ctx.effects(fields=["_enough_room"], kinds=["acquire"]) if ctx.in_pool(e.node.func)}.values():
+                   detail=f"release in {owner.short}: {why}")
+    for f in {(e.node.root or e.node.func).qual: (e.node.root or e.node.func) for e in ctx.effects(fields=["_enough_room"], kinds=["acquire"]) if ctx.in_pool(e.node.func)}.values():
         ok, why = slot_balance(ctx, f)
         rep.ob(rule, "slot balance of the acquirer: every acquired slot is handed to exactly one created task, or given back if the start fails", ok, func=f,
                construct=f"{f.name}: acquire .. create_task", detail=why)
@@ -265,7 +266,7 @@ def r_who_write_semaphore(ctx: Ctx, rule="R01.4"):
     for e in acq:
         rep.ob(rule, "pool slots are acquired only by _start_task", ctx.hosts_of(e.node) <= {"_start_task"}, node=e.node)
         # the acquire must be awaited (an un-awaited acquire() acquires nothing)
-        g = ctx.an.cfg(e.node.func)
+        g = ctx.an.cfg(e.node.root if e.node.root is not None else e.node.func)
         awaited = any(n.op == "await" and strip_cast(n.ast.value) is e.node.ast for n in g.nodes)
         rep.ob(rule, "the acquire coroutine is awaited", awaited, node=e.node)
 
@@ -749,7 +750,7 @@ def r_registry_who(ctx: Ctx, rule="R03.1"):
                 ok = True  # rebuilding idiom; judged by SNAPSHOT-FORGET
             if not ok and ctx.in_pool(e.node.func) and kind in ("insert", "remove"):
                 # an additional writer is acceptable if all it does are legal, atomic registry moves
-                lm = legal_moves(ctx, e.node.func)
+                lm = legal_moves(ctx, e.node.root if e.node.root is not None else e.node.func)
                 if lm is True:
                     rep.ob(rule, f"{kind} on {fld} by an additional writer that performs only legal atomic moves (running->cancelled->ended, running->ended)", True, node=e.node,
                            detail=f"{e.kind} {e.path} on behalf of {sorted(hosts)}")
